@@ -54,6 +54,9 @@ type Req struct {
 	NilBody bool `json:",omitempty"`
 	// Chunked hides the body length from net/http.
 	Chunked bool `json:",omitempty"`
+	// Resend: the client was given no tracer / meter provider, and after a 200 the SAME *http.Request is sent a second
+	// time with its body rewound (what a retrying caller does): the handler must read the same bytes again
+	Resend bool `json:",omitempty"`
 	// ReadBuf is the read size the handler uses.
 	ReadBuf int
 }
@@ -247,6 +250,7 @@ func genReq(t *rapid.T, limit int64) Req {
 			r.NilBody, r.Chunked = true, false
 		}
 		r.Comp = rapid.SampledFrom([]string{"", "none", "gzip", "gzip", "zlib", "deflate", "zstd", "zstd", "snappy", "snappy", "lz4", "lz4"}).Draw(t, "comp")
+		r.Resend = !r.Chunked && !r.NilBody && rapid.IntRange(0, 5).Draw(t, "resend") == 0
 		switch r.Comp {
 		case "gzip", "zlib", "deflate":
 			r.Level = rapid.SampledFrom(flateLevels).Draw(t, "level")
@@ -325,6 +329,7 @@ type outcome struct {
 	clientErr   error
 	clientPanic string
 	rec         *record
+	resendDiff  string // the second exchange of a resent request differed from the first
 }
 
 func (r *Req) handMade() bool { return r.Header != "" }
@@ -354,7 +359,7 @@ func damage(r *Req, wire []byte) []byte {
 
 func send(srv *server, s *Script, r *Req) (*outcome, error) {
 	o := &outcome{plain: r.Body.Bytes()}
-	cl, err := cache.client(r.Comp, r.Level)
+	cl, err := cache.clientOf(r.Comp, r.Level, r.Resend)
 	if err != nil {
 		return nil, fmt.Errorf("client %q/%d: %w", r.Comp, r.Level, err)
 	}
@@ -428,6 +433,38 @@ func send(srv *server, s *Script, r *Req) (*outcome, error) {
 	}
 	if entered() {
 		<-rec.done // bounded by the caller's hang guard
+	}
+	if r.Resend && err == nil && o.status == http.StatusOK && req.GetBody != nil {
+		id2 := nextID()
+		rec2 := &record{readBuf: r.ReadBuf, limit: s.effLimit(), keep: len(o.plain) + 64, done: make(chan struct{})}
+		srv.recs.Store(id2, rec2)
+		defer srv.recs.Delete(id2)
+		req.Header.Set(hdrID, id2)
+		req.Body, _ = req.GetBody()
+		var resp2 *http.Response
+		var err2 error
+		if p, _ := vt.Recover(func() { resp2, err2 = cl.c.Do(req) }); p != nil {
+			err2 = fmt.Errorf("client panicked: %v", p)
+		}
+		status2 := 0
+		if err2 == nil {
+			status2 = resp2.StatusCode
+			_, _ = io.Copy(io.Discard, resp2.Body)
+			_ = resp2.Body.Close()
+		}
+		entered2 := func() bool { rec2.mu.Lock(); defer rec2.mu.Unlock(); return rec2.entered > 0 }
+		if entered2() {
+			<-rec2.done
+		}
+		rec.mu.Lock()
+		n1, sum1 := rec.n, rec.sum
+		rec.mu.Unlock()
+		rec2.mu.Lock()
+		n2, sum2, ran2 := rec2.n, rec2.sum, rec2.ran
+		rec2.mu.Unlock()
+		if err2 != nil || status2 != http.StatusOK || n2 != n1 || sum2 != sum1 {
+			o.resendDiff = fmt.Sprintf("first exchange: 200, handler read %d bytes (sum %s); second exchange of the same request: err=%v status=%d handler ran %d times and read %d bytes (sum %s)", n1, sum1, err2, status2, ran2, n2, sum2)
+		}
 	}
 	return o, nil
 }
@@ -649,6 +686,9 @@ func evaluate(s *Script, r *Req, o *outcome) (nontrivial bool, labels []string, 
 		nontrivial = true
 	}
 
+	if o.resendDiff != "" {
+		return nontrivial, labels, vt.Failf("resend-differs/"+algo, "%s: %s", o.resendDiff, desc())
+	}
 	if o.clientPanic != "" {
 		return nontrivial, labels, vt.Failf("client-panic/"+algo, "the client panicked while sending: %s: %s", o.clientPanic, desc())
 	}
